@@ -81,6 +81,30 @@ def skip(args, cell=None):
     return False
 
 
+def kf_state(args, cell=None):
+    """'full'    : check everything on this input
+       'relaxed' : input lies inside a known finding's predicate (normal run): the harness may
+                   drop exactly the clause the finding is about and must keep all others
+       'skip'    : reproduction run for one finding and the input is outside its predicate"""
+    cell = cell or CELL
+    entries = [f for f in _load_kf() if f["cell"] == cell]
+    if not entries:
+        return "full"
+    env = {k: v for k, v in args.items() if not k.startswith("_")}
+    glb = {"__builtins__": {"abs": abs, "min": min, "max": max, "len": len}}
+    if KF_MODE.startswith("inside:"):
+        fid = KF_MODE.split(":", 1)[1]
+        for f in entries:
+            if f["id"] == fid:
+                return "full" if bool(eval(f["predicate"], glb, env)) else "skip"
+        return "skip"
+    for f in entries:
+        if bool(eval(f["predicate"], glb, env)):
+            STATS["skipped_known"] += 1
+            return "relaxed"
+    return "full"
+
+
 def verdict(cond, nontrivial=True, sample=None):
     """Decide the assertion on this path, record coverage, apply the vacuity twin.
 
